@@ -179,6 +179,11 @@ def _run_model(case, ctx):
             tol = 2e-5 if not uses_quad else 2e-3
             # the difference quotient amplifies the (accepted) error of Pi by 1/h
             atol_d = (rt * abs(_f(b[1])) + atol0) / h
+            # ... and has its own truncation error h^2/6 n''(ln p), estimated from the loading's second difference (large near the
+            # pole of BET-type models)
+            nm_, np_ = _call(m.loading, p * math.exp(-h)), _call(m.loading, p * math.exp(h))
+            if nm_[0] == "ok" and np_[0] == "ok":
+                atol_d += abs(_f(np_[1]) - 2 * _f(n[1]) + _f(nm_[1])) / 3
             if abs(_f(n[1])) > 1e-150 and p * math.exp(h) <= GM.pressure_window(name, P)[1] / 0.98 and not close(d, _f(n[1]), tol, atol_d):
                 ctx.violation("%s.spreading_pressure/derivative" % name, "p dPi/dp differs from the loading", P=P, p=p, got=d, expected=_f(n[1]))
     # ---- arrays equal scalars (analytic antiderivatives)
